@@ -7,6 +7,7 @@ The hash `H` is an arbitrary function (nothing is assumed about blake3): conclus
 import JubakoModel.Model.Pack
 import JubakoModel.Lemmas.Codec
 import JubakoModel.Lemmas.Mask
+import JubakoModel.Lemmas.Funcs
 
 set_option maxRecDepth 8000
 
@@ -159,5 +160,24 @@ example :
     h.WF ∧ (h.major = Consts.versionGateMajor ∧ h.minor = Consts.versionGateMinor) ∧
     h.checkInfoPos = 64 + ([1, 2, 3] : Bytes).length ∧ h.packSize = h.checkInfoPos + 37 + 64 := by
   simp [PackHeader.WF, Consts.versionGateMajor, Consts.versionGateMinor]
+
+/-! ### Tie to the source: the check stream of the theorems is the body of `ManifestCheckStream::read` -/
+
+/-- **One `read` of the model's check stream is the body of `ManifestCheckStream::read` as translated
+    from `common/check.rs` on every run** (`Generated.checkStreamStep`: how many bytes are asked of the
+    source at a given stream offset, and whether they are delivered as zeros), with the block size and
+    the number of checked bytes per pack info taken from the source as well.  `c04_stream_eq_mask`
+    and `c04_exempt_exactly` are therefore statements about the branch structure and the arithmetic
+    that are in the source now. -/
+theorem c04_check_stream_is_source_stream (packOff n pos : Nat) (src : Bytes) (req : Nat) :
+    checkStreamRead packOff n pos src req =
+      (let r := Generated.checkStreamStep packInfoBlockSize packOff (packOff + n * packInfoBlockSize) pos req
+       (if r.2 then zeros (src.take r.1).length else src.take r.1, src.drop r.1)) :=
+  gen_checkStreamRead packOff n pos src req
+
+/-- non-vacuity: at stream offset 128+38 of a manifest whose pack infos start at 128 the translated
+    body asks for the 218 exempt bytes and blanks them; one byte earlier it asks for one checked byte -/
+example : Generated.checkStreamStep 256 128 (128 + 2 * 256) (128 + 38) 65536 = (218, true) ∧
+          Generated.checkStreamStep 256 128 (128 + 2 * 256) (128 + 37) 65536 = (1, false) := by decide
 
 end Jubako
